@@ -264,23 +264,30 @@ class impl_guard:
     following streams still run.  Exceptions raised by harness code or the driver are re-raised unchanged (infrastructure).
     Nothing changes for a run in which nothing raises."""
 
-    def __init__(self, res, stream, promise=False, input=None):
-        self.res, self.stream, self.promise, self.input = res, stream, promise, input
+    def __init__(self, res, stream, promise=False, input=None, also=()):
+        # also: harness exception classes that mean "the implementation produced something outside the modelled domain" (e.g.
+        # wireutil.OutOfModel): attributed to the implementation although they are raised by harness code
+        self.res, self.stream, self.promise, self.input, self.also = res, stream, promise, input, tuple(also)
         self.raised = None
 
     def __enter__(self):
         return self
 
     def __exit__(self, et, e, tb):
-        if e is None or not isinstance(e, Exception) or not raised_in_repo(e):
+        if e is None or not isinstance(e, Exception):
+            return False
+        out_of_domain = bool(self.also) and isinstance(e, self.also)
+        if not out_of_domain and not raised_in_repo(e):
             return False
         self.raised = e
-        key = f"{self.stream}:raises:{err_class(e)}"
-        what = f"{type(e).__name__}: {e}"[:300] + f" [at {where_raised(e)}]"
+        key = f"{self.stream}:out-of-model" if out_of_domain else f"{self.stream}:raises:{err_class(e)}"
+        what = f"{type(e).__name__}: {e}"[:300] + ("" if out_of_domain else f" [at {where_raised(e)}]")
         inp = self.input if self.input is not None else {"stream": self.stream}
         self.res.count("errors", key)
         self.res.extra.setdefault("streams_aborted", []).append(self.stream)
-        if self.promise:
+        if out_of_domain:
+            self.res.exact_break(key, input=inp, impl=what, model="every object the implementation produces on these inputs lies in the modelled domain")
+        elif self.promise:
             self.res.violation(key, "the implementation raised on a valid generated input (no call site of the harness expects an error there)",
                                input=inp, impl=what)
         else:
